@@ -151,7 +151,7 @@ fn prepare_step(port0: bool, cids: &[u8], sticky: &[u8]) {
     kani::cover!(f[5] & 0x40 != 0, "ADRACKReq set");
 }
 
-//@h id=prepare_port_n props=C06,C08,C12 tier=quick build=dev-eu868 cost=120 timeout=1500
+//@h id=prepare_port_n props=C06,C08,C12 tier=quick build=dev-eu868 tbuilds=dev-eu433,dev-in865,dev-as923 cost=120 timeout=1500
 //@bounds arbitrary session with pending answers LinkADRAns, RXParamSetupAns, DevStatusAns, RXTimingSetupAns, DlChannelAns (9 bytes, symbolic payloads), arbitrary configuration under I-dr, FPort 1..=255, payload length 0..=18 with symbolic content, confirmed or not
 //@encodes Session::prepare_buffer, next_lower_datarate, DataFrame::build_into, securityhelpers::*, Uplink::clear_mac_commands(true), RadioBuffer::extend_from_slice
 //@assumes AES/CMAC are uninterpreted functions; payload within the regional maximum (documented precondition of send)
@@ -215,7 +215,7 @@ fn rx2_step(ri: usize) {
     crate::vcheck!(rt::inv(&mut region, cfg.data_rate), "C04/C09: ADR back-off selected a data rate for which no enabled channel exists (transmission can never start)");
 }
 
-//@h id=rx2_complete_step_dyn props=C04,C06,C09,C12 tier=quick build=dev-eu868 cost=30 timeout=900
+//@h id=rx2_complete_step_dyn props=C04,C06,C09,C12 tier=quick build=dev-eu868 tbuilds=dev-eu433,dev-in865,dev-as923 cost=30 timeout=900
 //@bounds EU868: arbitrary session (all counter values incl. 2^32-1, all ADR counter values), arbitrary configuration under I-dr, arbitrary plan under I-dyn
 //@encodes Session::rx2_complete, next_lower_datarate
 #[kani::proof]
@@ -224,7 +224,7 @@ fn rx2_complete_step_dyn() {
     rx2_step(0);
 }
 
-//@h id=rx2_complete_step_us props=C04,C06,C09,C12 tier=quick build=dev-us915 cost=30 timeout=900
+//@h id=rx2_complete_step_us props=C04,C06,C09,C12 tier=quick build=dev-us915 tbuilds=dev-au915 cost=30 timeout=900
 //@bounds US915: as above with an arbitrary 72-channel mask under I-fix (DR4 <-> DR3 bandwidth change)
 //@encodes Session::rx2_complete, next_lower_datarate
 #[kani::proof]
